@@ -280,8 +280,9 @@ func seqs() []string {
 	return out
 }
 
-func bigText(r *rand.Rand) string {
-	n := 200 + r.IntN(400)
+func bigText(r *rand.Rand) string { return bigTextN(r, 200+r.IntN(400)) }
+
+func bigTextN(r *rand.Rand, n int) string {
 	pool := []string{"{", "}", "  x: 1", "", "end", "  y: 2"}
 	lines := make([]string, n)
 	for i := range lines {
@@ -299,7 +300,17 @@ func editBig(r *rand.Rand, s string) string {
 	k := 1 + r.IntN(6)
 	for ; k > 0; k-- {
 		i := r.IntN(len(ls))
-		switch r.IntN(3) {
+		switch r.IntN(5) {
+		case 3:
+			// one more copy of a line right next to itself (a duplicated record, an extra blank line)
+			ls = append(ls[:i+1], append([]string{ls[i]}, ls[i+1:]...)...)
+		case 4:
+			// drop one line of a run of identical lines, if there is a run here
+			if i+1 < len(ls) && ls[i] == ls[i+1] {
+				ls = append(ls[:i], ls[i+1:]...)
+			} else {
+				ls = append(ls[:i+1], append([]string{ls[i]}, ls[i+1:]...)...)
+			}
 		case 0:
 			ls[i] = ls[i] + "~"
 		case 1:
@@ -325,7 +336,7 @@ func midText(r *rand.Rand) string {
 }
 
 func checkC13(c *vkit.Ctx) {
-	c.P.Rule = "part (i): ALL ordered pairs of line sequences over {a,b,c} of length 0..5 (364^2 = 132496 pairs), NO_COLOR, complete; part (ii): seeded random pairs - near pairs (one hostile edit), independent texts, single-line, >10 lines (range headers), 200-600 lines with heavily repeated lines (popular-line heuristic), lines starting with `- `/`+ `/`@@`, colours on and off; every pair goes through the real prettyDiff and the real opcode generator, an independent parser/checker decides all clauses; non-trivial = pair with different texts; distinct by hash(stored, received, colour)"
+	c.P.Rule = "part (i): ALL ordered pairs of line sequences over {a,b,c} of length 0..5 (364^2 = 132496 pairs), NO_COLOR, complete; part (ii): seeded random pairs - near pairs (one hostile edit), independent texts, single-line, >10 lines (range headers), 200-600 lines with heavily repeated lines (popular-line heuristic), 1000-12000 lines around round sizes with few edits incl. a line duplicated next to itself or one line of a run dropped, lines starting with `- `/`+ `/`@@`, colours on and off; every pair goes through the real prettyDiff and the real opcode generator, an independent parser/checker decides all clauses; non-trivial = pair with different texts; distinct by hash(stored, received, colour)"
 	all := seqs()
 	total := len(all) * len(all)
 	done := 0
@@ -357,6 +368,24 @@ func checkC13(c *vkit.Ctx) {
 		}
 		r := c.Rand("pair", j)
 		var a, b, shape string
+		if r.IntN(150) == 0 {
+			// thousands of lines on both sides (size-gated fast paths live here), sizes around
+			// round numbers, few edits
+			sizes := []int{999, 1000, 1001, 1999, 2000, 2001, 2500, 3000, 4095, 4096, 4097, 5000, 8192, 10000, 12000}
+			a = bigTextN(r, sizes[r.IntN(len(sizes))])
+			b = editBig(r, a)
+			shape = "1k-12k-lines-repeated"
+		} else {
+			a, b, shape = drawPair(r, j)
+		}
+		_ = shape
+		noColor := r.IntN(3) != 0
+		judgeAndCount(c, r, j, a, b, shape, noColor)
+	}
+}
+
+func drawPair(r *rand.Rand, j int) (a, b, shape string) {
+	{
 		switch x := r.IntN(20); {
 		case x < 6:
 			a, _ = vkit.Text(r, vkit.TextOpts{NoHuge: j%40 != 0, CREOL: true})
@@ -391,8 +420,13 @@ func checkC13(c *vkit.Ctx) {
 			b, _ = vkit.Pair(r, a, true)
 			shape = "prefix-lookalike-lines"
 		}
-		noColor := r.IntN(3) != 0
-		c.Guard([]string{a, b}, func() {
+	}
+	return a, b, shape
+}
+
+func judgeAndCount(c *vkit.Ctx, r *rand.Rand, j int, a, b, shape string, noColor bool) {
+	{
+		c.Guard([]string{vkit.Clip(a, 2000), vkit.Clip(b, 2000)}, func() {
 			if k, d := judgePair(a, b, noColor); k != "" {
 				class := ""
 				if k == "empty-iff-identical" {
